@@ -425,6 +425,10 @@ func (r *mapRun) exec(op absOp) {
 				rr = &r.roots[i]
 			}
 		}
+		if rr == nil {
+			r.st.end()
+			return // the root is no longer retained by the driver: nothing to execute
+		}
 		var m *mast.Mast
 		ev.Res, ev.Msg = guard(func() error {
 			root := rr.root
@@ -762,7 +766,11 @@ func randomMapTrace(id int, seed int64, steps int, out *json.Encoder, fixed *map
 			rr := r.roots[rng.Intn(len(r.roots))]
 			for rep := 0; rep < 3; rep++ {
 				g := freeSlot()
-				if g == 0 {
+				retained := false
+				for i := range r.roots {
+					retained = retained || r.roots[i].id == rr.id
+				}
+				if g == 0 || !retained {
 					break
 				}
 				r.exec(absOp{Op: "load", G: g, R: rr.id, Cached: true})
